@@ -37,6 +37,8 @@ func familyFor(obligation, def string) string {
 		{"seq.integerIter", "seq-iter"}, {"seq.stringIter", "seq-iter"}, {"seq.sliceIter", "seq-iter"}, {"seq.mapIter", "seq-iter"}, {"seq.chanIter", "seq-iter"},
 		{"seq.NewIntegerIter", "seq-iter"}, {"seq.NewStringIter", "seq-iter"}, {"seq.NewSliceIter", "seq-iter"}, {"seq.NewMapIter", "seq-iter"}, {"seq.NewChanIter", "seq-iter"},
 		{"rewriter.hasBreak", "rw-term"}, {"rewriter.terminationChecker", "rw-term"},
+		{"rewriter.yieldRewriter.gensym", "rw-determinism"}, {"scan.rw-symcnt-frame", "rw-determinism"}, {"scan.rw-per-file-rewriter", "rw-determinism"},
+		{"scan.rw-no-package-state", "rw-determinism"}, {"scan.rw-no-map-iteration", "rw-determinism"},
 		{"rewriter.", "rw-samples"},
 	}
 	for _, r := range rules {
@@ -85,6 +87,9 @@ func (en *Engine) runSamples(verif string) string {
 func (en *Engine) runReplayFamily(family, id, verif string) string {
 	if family == "rw-samples" {
 		return en.runSamples(verif)
+	}
+	if family == "rw-determinism" {
+		return en.runDeterminism(verif)
 	}
 	fam, ok := replayFamilies[family]
 	if !ok {
@@ -157,4 +162,24 @@ func (en *Engine) replayFile(path, verif string) int {
 		return 1
 	}
 	return 0
+}
+
+// runDeterminism: replay/determinism.sh — the real compiler on one package alone, re-run over earlier outputs, and
+// among sibling files and another package; the generated text must be byte-identical and helper names distinct.
+func (en *Engine) runDeterminism(verif string) string {
+	ctx, cancel := context.WithTimeout(context.Background(), 600*time.Second)
+	defer cancel()
+	cmd := exec.CommandContext(ctx, filepath.Join(verif, "replay", "determinism.sh"), en.repo)
+	var out bytes.Buffer
+	cmd.Stdout = &out
+	cmd.Stderr = &out
+	_ = cmd.Run()
+	o := strings.TrimSpace(out.String())
+	if strings.Contains(o, "DETERMINISM-OK") {
+		return "NOT-REPRODUCED: " + trunc(o, 600)
+	}
+	if strings.Contains(o, "DETERMINISM-FAIL") {
+		return "REPRODUCED: " + trunc(o, 3000)
+	}
+	return "REPLAY-ERROR: " + trunc(o, 600)
 }
